@@ -50,4 +50,84 @@ theorem chooseGo_nonzero (hadd : ∀ x : F, FOps.add x FOps.zero = x) (roll norm
       have : r - i0 = (r - (i0+1)) + 1 := by omega
       rw [this]; simpa using hq'
 
+/-- when every test of the loop fails, in particular the LAST one failed, and its running sum is the complete sum -/
+theorem chooseGo_none (roll norm : F) (p : List F) (hp : p ≠ []) (sum : F) (i0 : Nat)
+    (h : chooseGo roll norm p sum i0 = none) : FOps.lt roll (FOps.div (p.foldl FOps.add sum) norm) = false := by
+  induction p generalizing sum i0 with
+  | nil => exact absurd rfl hp
+  | cons q rest ih =>
+    simp only [chooseGo] at h
+    split at h
+    · cases h
+    · rename_i hnlt
+      cases rest with
+      | nil => simpa using hnlt
+      | cons q2 rest2 => exact ih (by simp) _ _ h
+
+/-- `esl_rnd_DChoose` / `FChoose` never reach `esl_fatal("unreached code was reached")`: the second loop's final running sum is
+    bit for bit `norm` (the same additions in the same order from 0.0), so the last test is `roll < norm/norm`; whenever that
+    holds (`norm/norm = 1` for a finite non-zero `norm`, `roll ∈ [0,1)`) an index is returned — any floating type, no law assumed -/
+theorem dchoose_returns (roll : F) (p : List F) (hp : p ≠ [])
+    (h1 : FOps.lt roll (FOps.div (p.foldl FOps.add FOps.zero) (p.foldl FOps.add FOps.zero)) = true) :
+    ∃ r, dchoose roll p = some r := by
+  cases h : dchoose roll p with
+  | some r => exact ⟨r, rfl⟩
+  | none =>
+    have := chooseGo_none roll _ p hp FOps.zero 0 h
+    rw [this] at h1
+    cases h1
+
+/-- the CDF variants: the returned index is the FIRST one whose test `roll < cdf[i]/cdf[N-1]` holds -/
+theorem dchooseCDFgo_first (roll last : F) (cdf : List F) (i0 r : Nat) (h : dchooseCDFgo roll last cdf i0 = some r) :
+    i0 ≤ r ∧ (∃ c, cdf[r - i0]? = some c ∧ FOps.lt roll (FOps.div c last) = true) ∧
+    ∀ k, k < r - i0 → ∃ c, cdf[k]? = some c ∧ FOps.lt roll (FOps.div c last) = false := by
+  induction cdf generalizing i0 with
+  | nil => simp [dchooseCDFgo] at h
+  | cons c rest ih =>
+    simp only [dchooseCDFgo] at h
+    split at h
+    · rename_i hlt
+      cases h
+      exact ⟨Nat.le_refl _, ⟨c, by simp, hlt⟩, fun k hk => by omega⟩
+    · rename_i hnlt
+      obtain ⟨hle, ⟨c', hc', hlt'⟩, hprev⟩ := ih _ h
+      have e : r - i0 = (r - (i0+1)) + 1 := by omega
+      refine ⟨by omega, ⟨c', by rw [e]; simpa using hc', hlt'⟩, fun k hk => ?_⟩
+      cases k with
+      | zero => exact ⟨c, by simp, by simpa using hnlt⟩
+      | succ k =>
+        obtain ⟨c2, hc2, h2⟩ := hprev k (by omega)
+        exact ⟨c2, by simpa using hc2, h2⟩
+
+/-- `esl_rnd_DChooseCDF` / `FChooseCDF` return an index of non-zero probability mass: the chosen `cdf[r]` differs from its
+    predecessor `cdf[r-1]` (from `0` for `r = 0`, given that the roll is not below `0/cdf[N-1]`) — any floating type -/
+theorem dchooseCDF_nonzero (roll last : F) (cdf : List F) (hroll : FOps.lt roll (FOps.div FOps.zero last) = false) (r : Nat)
+    (h : dchooseCDFgo roll last cdf 0 = some r) :
+    ∃ c, cdf[r]? = some c ∧ (r = 0 → c ≠ FOps.zero) ∧ (∀ c', 0 < r → cdf[r - 1]? = some c' → c ≠ c') := by
+  obtain ⟨_, ⟨c, hc, hlt⟩, hprev⟩ := dchooseCDFgo_first roll last cdf 0 r h
+  refine ⟨c, by simpa using hc, fun _ hz => ?_, fun c' hr hc' he => ?_⟩
+  · rw [hz, hroll] at hlt; cases hlt
+  · obtain ⟨c2, hc2, h2⟩ := hprev (r - 1) (by omega)
+    rw [hc'] at hc2
+    cases hc2
+    rw [he, h2] at hlt
+    cases hlt
+
+/-- and they never reach `esl_fatal` when `roll < cdf[N-1]/cdf[N-1]` -/
+theorem dchooseCDF_returns (roll last : F) (cdf : List F) (i0 : Nat) (hl : cdf.getLast? = some last)
+    (h1 : FOps.lt roll (FOps.div last last) = true) : ∃ r, dchooseCDFgo roll last cdf i0 = some r := by
+  induction cdf generalizing i0 with
+  | nil => simp at hl
+  | cons c rest ih =>
+    simp only [dchooseCDFgo]
+    split
+    · exact ⟨i0, rfl⟩
+    · rename_i hn
+      cases rest with
+      | nil =>
+        simp at hl
+        rw [hl] at hn
+        exact absurd h1 hn
+      | cons c2 rest2 => exact ih _ (by simpa using hl)
+
 end EaselModel.Random
